@@ -151,6 +151,9 @@ func runC08(c *Ctx, kind string, seed uint64) {
 				_ = w.Board.Send(storage.Message{DkgRoundID: rd, Event: ev, Data: data, SenderAddr: w.Nodes[1].Name, Signature: r.Bytes(64)})
 			}
 		}
+		// a reinitialisation message whose last embedded message is rejected
+		cid := fmt.Sprintf("%064x", r.Uint64())
+		_ = w.Board.Send(storage.Message{DkgRoundID: cid, Event: EvReinit, Data: []byte(`{"dkg_id":"` + cid + `","threshold":2,"participants":[],"messages":[{"id":"x","dkg_round_id":"` + cid + `","offset":0,"event":"event_dkg_commit_confirm_received","data":"e30=","signature":"AA==","sender":"nobody","recipient":""}]}`), SenderAddr: "nobody", Signature: []byte("x")})
 		// unauthenticated reinitialisation messages: malformed, and empty for an unused round id
 		_ = w.Board.Send(storage.Message{DkgRoundID: "", Event: EvReinit, Data: []byte(`{"dkg_id":"","threshold":0}`), SenderAddr: "nobody", Signature: []byte("x")})
 		rid := fmt.Sprintf("%064x", r.Uint64())
@@ -210,6 +213,19 @@ func runC08(c *Ctx, kind string, seed uint64) {
 			c.Inconclusive("batch: %v", err)
 			return
 		}
+	}
+	if kind == "two-rounds" && len(rounds) == 2 {
+		// a participant (authenticated in round B) broadcasts "reconstructed signatures" on round B whose
+		// payload names round A's batch and messages: round A's store must not notice
+		a, b := rounds[0], rounds[1]
+		for batch, msgs := range SigStore(w.Nodes[0], a) {
+			var forged []map[string]interface{}
+			for mid := range msgs {
+				forged = append(forged, map[string]interface{}{"File": "f", "BatchID": batch, "MessageID": mid, "SrcPayload": []byte("other"), "Signature": r.Bytes(96), "Username": w.Nodes[1].Name, "DKGRoundID": a})
+			}
+			_ = w.Board.Send(world.SignMsg(w.Nodes[1], b, EvSigRecon, mkReq(forged), ""))
+		}
+		w.Run(policy, 2000)
 	}
 	w.AfterStep = nil
 	c.Add("same_prefix_agreement_checks", agreeChecks)
